@@ -18,7 +18,7 @@ UNIT_MAP = {
     'frames': ['closure_capture'],
     'gc_roots': ['gc_roots', 'callback_mutation'],
     'host_values': ['gc_roots'],
-    'stdlib_natives': ['native_keys'],
+    'stdlib_natives': ['native_keys', 'callback_mutation'],
     'instr_rooting': ['operand_rooting'],
     'stdlib_reentry': ['callback_mutation'],
     'stdlib_contracts': ['stdlib_model'],
